@@ -170,21 +170,29 @@ def collect(ctx, invs):
         st.pop("beep")
         if k % 7 == 0:
             st["hum"] = 0
-        st["turbo_pos"] = ["both", "alt", "primary", "both"][k % 4]          # where the unit reports an active turbo mode: both positions of the state message, or one
+        st["turbo_pos"] = ["both", "alt", "primary", "both"][k % 4]
+        st["aux_both"] = k % 3 == 0          # in aux-only mode this unit reports the heater flag together with the independent-aux flag
+        slen = [24, 24, 19, 24, 21, 24, 23][k % 7]       # some units answer with the short legacy state message (no humidity / freeze-protection fields)          # where the unit reports an active turbo mode: both positions of the state message, or one
         fan_cap = [bytes([0x10, 0x02, 1, 1]), bytes([0x10, 0x02, 1, 0]), bytes([0x10, 0x02, 1, 7]), b""][(k // 6) % 4]   # custom speeds / presets only / none
         if capflag_of(k) and not fan_cap[3:4] == b"\x01" and k % 12 == 5:
             st["fan"] = rng.choice([1, 19, 33, 55, 79, 99, 101])             # the unit currently runs at a raw (non-preset) speed
         nbreeze = sum(1 for a in args if a.split("=")[0] in ("breeze_away", "breeze_mild", "breezeless"))
         ctl = bool(capflag_of(k) and nbreeze <= 1 and (k // 6) % 2 == 0)       # the unit advertises the combined breeze control and the client asks for capabilities
         brz = bytes([0x43, 0x00, 1, 1]) if ctl else b""
-        model = acdev.ACModel(state=dict(st, display=rng.random() < 0.5), state_len=24,
+        model = acdev.ACModel(state=dict(st, display=rng.random() < 0.5), state_len=slen,
                               caps_pages=[bytes([0xB5, 1 + (1 if fan_cap else 0) + (1 if ctl else 0)]) + fan_cap + brz + bytes([0x14, 0x02, 1, 0, 0, 0])],      # fan capability varies, modes; NO display control
                               props={0x09: b"\x00", 0x0A: b"\x00", 0x48: b"\x64", 0x42: b"\x01", 0x18: b"\x00", 0xE3: b"\x01\x00", 0x43: b"\x01"})
         rep = snap(model)
         capflag = ["--capabilities"] if capflag_of(k) else []          # capabilities queried before the settings are applied
         argv = ["control", "10.0.0.50"] + capflag + (["--token", TOK.hex(), "--key", KEY.hex(), "--id", str(rng.getrandbits(40))] if ver == 3 else []) + list(args)
         obs = run_cli(argv, model, ver)
-        obs.update(args=[B(a.encode()) for a in args], reported=rep, after=snap(model), ver=ver, argv=args, capflag=bool(capflag), ctl=ctl,
+        aft = snap(model)
+        given = {a.split("=")[0] for a in args}
+        if slen < 20 and not given & {"target_humidity"}:
+            rep["hum"] = aft["hum"]           # a field the unit did not report cannot be "left as reported": whatever the command carries is acceptable
+        if slen < 22 and not given & {"freeze_protection", "freeze_protection_mode"}:
+            rep["freeze"] = aft["freeze"]
+        obs.update(args=[B(a.encode()) for a in args], reported=rep, after=aft, ver=ver, argv=args, capflag=bool(capflag), ctl=ctl, state_len=slen,
                    fan_raw_without_custom_capability=bool(fan_cap[3:4] != b"\x01" and rep["fan"] not in (20, 40, 60, 80, 100, 102)))
         vectors.append(obs)
         ctx.count_distinct(tuple(args))
@@ -201,7 +209,7 @@ def judge(ctx, vectors, canaries=True):
         c = copy.deepcopy(ok[1]); c["exit"] = 1; cans.append(c)
         c = copy.deepcopy(bad[0]); c["exit"] = 0; cans.append(c)
         c = copy.deepcopy(bad[1]); c["sent"] = 3; cans.append(c)
-    rej = ctx.validate_vectors("Trace_Cli", [{k: v for k, v in x.items() if k not in ("argv", "capflag", "fan_raw_without_custom_capability")} for x in vectors + cans])
+    rej = ctx.validate_vectors("Trace_Cli", [{k: v for k, v in x.items() if k not in ("argv", "capflag", "fan_raw_without_custom_capability", "state_len")} for x in vectors + cans])
     n = len(vectors)
     if canaries and len({i for i, _ in rej if i >= n}) != len(cans):
         ctx.defer_machinery("Trace_Cli accepted a canary")
@@ -210,7 +218,7 @@ def judge(ctx, vectors, canaries=True):
         if i < n:
             v = vectors[i]
             ctx.violation("control " + ("--capabilities " if v.get("capflag") else "") + " ".join(v["argv"])[:160] + f" (V{v['ver']})", clause,
-                          {"argv": v["argv"], "capflag": v.get("capflag", False), "ctl": v.get("ctl", False), "fan_raw_without_custom_capability": v.get("fan_raw_without_custom_capability", False),
+                          {"argv": v["argv"], "capflag": v.get("capflag", False), "ctl": v.get("ctl", False), "state_len": v.get("state_len", 24), "fan_raw_without_custom_capability": v.get("fan_raw_without_custom_capability", False),
                            "display_toggled": bool(v["reported"].get("display") != v["after"].get("display")), "ver": v["ver"], "reported": v["reported"], "after": v["after"], "exit": v["exit"], "exc": v["exc"], "sent": v["sent"]})
 
 
@@ -236,7 +244,7 @@ def run(ctx: Ctx) -> int:
 def replay(ctx: Ctx, path: str) -> int:
     import json
     c = json.load(open(path))["case"]
-    model = acdev.ACModel(state={k: v for k, v in c["reported"].items()}, state_len=24,
+    model = acdev.ACModel(state={k: v for k, v in c["reported"].items()}, state_len=c.get("state_len", 24),
                           caps_pages=[bytes([0xB5, 3 if c.get("ctl") else 2, 0x10, 0x02, 1, 1]) + (bytes([0x43, 0x00, 1, 1]) if c.get("ctl") else b"") + bytes([0x14, 0x02, 1, 0, 0, 0])],
                           props={0x09: b"\x00", 0x0A: b"\x00", 0x48: b"\x64", 0x42: b"\x01", 0x18: b"\x00", 0xE3: b"\x01\x00", 0x43: b"\x01"})
     rep = snap(model)
